@@ -588,6 +588,11 @@ func extractXMLDataField(parsedFieldBytes *TagValue, buffer []byte, dataLen int)
 		return
 	}
 	endIndex += dataLen + 1
+	if endIndex >= len(buffer) {
+		err = parseError{OrigError: "extractXMLDataField: XMLDataLen exceeds the remaining message in " + string(buffer)}
+		remBytes = buffer
+		return
+	}
 
 	err = parsedFieldBytes.parse(buffer[:endIndex+1])
 	return buffer[(endIndex + 1):], err
